@@ -17,6 +17,7 @@ import ShkModel.Driver.C11
 import ShkModel.Driver.C09
 import ShkModel.Driver.C20
 import ShkModel.Driver.C10
+import ShkModel.Driver.Regex
 /-! `shkdrv`: the executable model driver.  One request per line
 (`<property> <op> <tokens…>`), one answer per line.  Imports only core-Lean model and
 spec modules, so that it links. -/
@@ -43,6 +44,7 @@ def dispatch (line : String) : String :=
   | "C09" :: rest => C09.handle rest
   | "C20" :: rest => C20.handle rest
   | "C10" :: rest => C10.handle rest
+  | "RE" :: rest => Regex.handle rest
   | _ => "bad-op"
 
 partial def loop (h : IO.FS.Stream) (out : IO.FS.Stream) : IO Unit := do
